@@ -22,10 +22,10 @@ func TestMain(m *testing.M) { vlib.Main(m) }
 var schedMu sync.Mutex
 
 type config struct {
-	C        int `json:"c"`        // channel capacity
-	B        int `json:"b"`        // bufferSizeMaximum
-	LoaderUs int `json:"loaderUs"` // loader interval in microseconds
-	Plain    bool `json:"plain"`   // plain ChannelQueue instead of BufferedChannelQueue
+	C        int  `json:"c"`        // channel capacity
+	B        int  `json:"b"`        // bufferSizeMaximum
+	LoaderUs int  `json:"loaderUs"` // loader interval in microseconds
+	Plain    bool `json:"plain"`    // plain ChannelQueue instead of BufferedChannelQueue
 }
 
 func (c config) String() string {
@@ -327,7 +327,13 @@ func runSeq(s seqCase) result {
 		// nothing stranded: once producers stopped, repeated calls of ONE consumer
 		// operation (drawn) must retrieve every accepted item, with no further Offer and
 		// no other call that could wake the loader on its behalf
-		if cfg.C >= 1 {
+		// With an unbuffered channel (C=0) the non-blocking loader can only hand over to a consumer that
+		// is waiting at that moment, so only consumers that wait and retry (TakeWithTimeout, timed channel
+		// receive: every attempt posts a wake-up and then waits) are required to make progress there.
+		if cfg.C == 0 && !cfg.Plain && s.Drain != cTakeT && s.Drain != cChan {
+			s.Drain = cTakeT
+		}
+		if cfg.C >= 1 || (!cfg.Plain && cfg.B > 0) {
 			attempts, lastProgress := 0, time.Now()
 			for len(model) > 0 {
 				var v int
@@ -757,6 +763,8 @@ func TestRegress(t *testing.T) {
 		{Cfg: config{C: 1, B: 2, LoaderUs: 10}, Ops: []int{sOffer, sOffer, sOffer, sOffer, sQuiesce, sPoll, sQuiesce, sPoll, sQuiesce, sPoll, sPoll}},
 		{Cfg: config{C: 3, B: 1, LoaderUs: 200}, Ops: []int{sOffer, sOffer, sOffer, sOffer, sOffer, sQuiesce, sOffer, sTakeT, sTakeT, sTakeT, sQuiesce, sTakeT, sCount}},
 		{Cfg: config{C: 0, B: 5, LoaderUs: 10}, Ops: []int{sOffer, sOffer, sPoll, sCount, sQuiesce, sCount}},
+		{Cfg: config{C: 0, B: 5, LoaderUs: 200}, Ops: []int{sOffer, sOffer, sOffer, sOffer, sOffer}, Drain: cTakeT},
+		{Cfg: config{C: 0, B: 2, LoaderUs: 2000}, Ops: []int{sOffer, sOffer}, Drain: cChan},
 		{Cfg: config{C: 2, B: 0, LoaderUs: 10}, Ops: []int{sOffer, sOffer, sOffer, sPoll, sOffer, sQuiesce, sOffer}},
 		{Cfg: config{C: 2, Plain: true}, Ops: []int{sOffer, sOffer, sOffer, sPoll, sTakeT, sTakeT}},
 	}
